@@ -70,7 +70,8 @@ def run(rep: Report, tier: str) -> None:
 						src = attr_of(v.right, cls, ('other',))
 						ra.check(src is not None and src[1] == store, key + ':right-wins', (DI_PY, n.lineno), f'combine must put the right operand on the right of the dict union so its bindings win: `{unparse(v)}`', unparse(n))
 					if mname == 'combine' and isinstance(v, ast.Dict):
-						spreads = [unparse(x) for k, x in zip(v.keys, v.values) if k is None]
+						# a local that stands for one of the operand's stores (`redefined = other.__definitions`) is read as that store
+						spreads = [unparse(deref(f.node, x) if isinstance(x, ast.Name) else x) for k, x in zip(v.keys, v.values) if k is None]
 						ra.check(len(spreads) == 2 and spreads[1].startswith('other.'), key + ':right-wins', (DI_PY, n.lineno), f'combine must spread the right operand last so its bindings win; spreads are {spreads}', unparse(n))
 			# a clone is a new container: it starts from the operands' *bindings* only. Any other store of the class (per-container records such as the
 			# first-invocation memo, which also gates the one-time signature check) must not be carried over, or the clone behaves according to its operand's history
@@ -423,7 +424,7 @@ def run(rep: Report, tier: str) -> None:
 	rw = rep.rule('C19/combine-right-bindings-win', 'DI.combine drops the left operand\'s instance of every symbol the right operand has a factory for; LazyDI.combine drops the left operand\'s materialised binding of every symbol the right operand defines by name', floor=2)
 
 	def membership_tests(f, store: str) -> list[ast.Compare]:
-		return [n for n in ast.walk(f.node) if isinstance(n, ast.Compare) and len(n.ops) == 1 and isinstance(n.ops[0], (ast.In, ast.NotIn)) and unparse(n.comparators[0]) == f'other.{store}']
+		return [n for n in ast.walk(f.node) if isinstance(n, ast.Compare) and len(n.ops) == 1 and isinstance(n.ops[0], (ast.In, ast.NotIn)) and unparse(deref(f.node, n.comparators[0]) if isinstance(n.comparators[0], ast.Name) else n.comparators[0]) == f'other.{store}']
 
 	dc = di.method('combine')
 	tests = membership_tests(dc, '__injectors')
@@ -447,6 +448,27 @@ def run(rep: Report, tier: str) -> None:
 	else:
 		tests = membership_tests(lc, '__definitions')
 		removes = [n for n in ast.walk(lc.node) if isinstance(n, (ast.If, ast.For, ast.ListComp, ast.DictComp)) and any(t_ is c_ for t_ in tests for c_ in ast.walk(n)) and drops(n, '__in')] + [n for n in loops_over(lc, '__definitions') if drops(n, '__in')]
+		# ... but NOT where the right operand has materialised the symbol itself: DI.combine has just copied the right operand's factory and instance
+		# for it, and removing those makes the combined container re-create the symbol from the (possibly stale) by-name definition — another
+		# instance than the right operand's, or another factory when the right operand re-bound the symbol directly
+		if removes:
+			from vlib.match import path_conditions as _pc
+			guarded_ = False
+			for rm_ in removes:
+				calls_rm = [x for x in ast.walk(rm_) if (isinstance(x, ast.Call) and isinstance(x.func, ast.Attribute) and x.func.attr in ('unbind', 'pop')) or isinstance(x, ast.Delete)]
+				for x in calls_rm:
+					def _expanded(e_: ast.AST) -> str:
+						# locals stand for their values (`other_symbols = other._binded_symbols()`, `redefined_by_name = ... in other.__definitions`)
+						out_ = unparse(e_)
+						for nm_ in [y for y in ast.walk(e_) if isinstance(y, ast.Name)]:
+							d_ = deref(lc.node, nm_)
+							if d_ is not nm_:
+								out_ += ' ' + unparse(d_)
+						return out_
+					conds_ = [_expanded(c_) for c_, _p in _pc(lc.node, x)] + [_expanded(i_) for g_ in getattr(rm_, 'generators', []) for i_ in g_.ifs]
+					if any('other.' in c_.replace('other.__definitions', '') or '_binded_symbols' in c_ for c_ in conds_):
+						guarded_ = True
+			rw.check(guarded_, 'LazyDI.combine:right-materialised-kept', lc.where, 'LazyDI.combine removes the materialised binding of every symbol the right operand defines by name, also where the right operand has MATERIALISED the symbol itself: DI.combine has just copied the right operand\'s factory and instance for it, and removing them makes the combined container build a new instance from the by-name definition — `combined.resolve(S) is right.resolve(S)` is False, and a direct re-binding of S in the right operand is lost')
 		rw.check(bool(removes), 'LazyDI.combine:materialised-filtered-by-right-definitions', lc.where, 'LazyDI.combine merges the by-name definitions but keeps every binding the left operand has already materialised: resolve() consults the by-name layer only when the materialised layer has no entry, so a symbol the right operand defines by name still resolves to the left operand\'s factory and instance')
 
 	# ---- (d) wiring ------------------------------------------------------------------------------------------------------------
